@@ -96,6 +96,19 @@ THEOREMS = {
             "JP.C04heap.marshal_terminates", "JP.C04heap.abs_terminates", "JP.C04heap.marshalRoot_eq",
             "JP.C04heap.applyHeap_eq", "JP.C04heap.applyHeap_no_panic", "JP.C04heap.patch_values_fresh",
         ],
+        "JP.Props.C04heapLegacy": [
+            "JP.C04heapLegacy.ex_repr", "JP.C04heapLegacy.repr_is_v5", "JP.C04heapLegacy.shared_not_repr",
+            "JP.C04heapLegacy.repr_frame", "JP.C04heapLegacy.repr_write", "JP.C04heapLegacy.repr_alloc",
+            "JP.C04heapLegacy.repr_tree", "JP.C04heapLegacy.intoDoc_refines", "JP.C04heapLegacy.intoAry_refines",
+            "JP.C04heapLegacy.intoContainer_refines", "JP.C04heapLegacy.get_refines", "JP.C04heapLegacy.add_refines",
+            "JP.C04heapLegacy.set_refines", "JP.C04heapLegacy.remove_refines", "JP.C04heapLegacy.find_refines",
+            "JP.C04heapLegacy.findObject_refines", "JP.C04heapLegacy.findObject_twice", "JP.C04heapLegacy.remove_op_refines",
+            "JP.C04heapLegacy.add_op_refines", "JP.C04heapLegacy.replace_op_refines", "JP.C04heapLegacy.move_op_refines",
+            "JP.C04heapLegacy.copy_op_refines", "JP.C04heapLegacy.test_op_refines", "JP.C04heapLegacy.apply_refines_legacy",
+            "JP.C04heapLegacy.tree_preserved_legacy", "JP.C04heapLegacy.marshal_terminates_legacy", "JP.C04heapLegacy.abs_terminates_legacy",
+            "JP.C04heapLegacy.marshalRoot_eq_legacy", "JP.C04heapLegacy.applyHeapL_eq", "JP.C04heapLegacy.applyHeapL_no_panic",
+            "JP.C04heapLegacy.patch_values_fresh_legacy",
+        ],
     },
     "C05": {
         "JP.Props.C17decode": [
@@ -417,6 +430,19 @@ THEOREMS = {
         "JP.Props.C18agree": [
             "JP.C18.v5_legacy_agree_ops", "JP.C18.v5_legacy_agree", "JP.C18.v5_legacy_disagree_example",
         ],
+        "JP.Props.C04heapLegacy": [
+            "JP.C04heapLegacy.ex_repr", "JP.C04heapLegacy.repr_is_v5", "JP.C04heapLegacy.shared_not_repr",
+            "JP.C04heapLegacy.repr_frame", "JP.C04heapLegacy.repr_write", "JP.C04heapLegacy.repr_alloc",
+            "JP.C04heapLegacy.repr_tree", "JP.C04heapLegacy.intoDoc_refines", "JP.C04heapLegacy.intoAry_refines",
+            "JP.C04heapLegacy.intoContainer_refines", "JP.C04heapLegacy.get_refines", "JP.C04heapLegacy.add_refines",
+            "JP.C04heapLegacy.set_refines", "JP.C04heapLegacy.remove_refines", "JP.C04heapLegacy.find_refines",
+            "JP.C04heapLegacy.findObject_refines", "JP.C04heapLegacy.findObject_twice", "JP.C04heapLegacy.remove_op_refines",
+            "JP.C04heapLegacy.add_op_refines", "JP.C04heapLegacy.replace_op_refines", "JP.C04heapLegacy.move_op_refines",
+            "JP.C04heapLegacy.copy_op_refines", "JP.C04heapLegacy.test_op_refines", "JP.C04heapLegacy.apply_refines_legacy",
+            "JP.C04heapLegacy.tree_preserved_legacy", "JP.C04heapLegacy.marshal_terminates_legacy", "JP.C04heapLegacy.abs_terminates_legacy",
+            "JP.C04heapLegacy.marshalRoot_eq_legacy", "JP.C04heapLegacy.applyHeapL_eq", "JP.C04heapLegacy.applyHeapL_no_panic",
+            "JP.C04heapLegacy.patch_values_fresh_legacy",
+        ],
     },
     "C19": {
         "JP.Props.C19bytes": [
@@ -464,7 +490,7 @@ THEOREMS = {
 OPEN = {
     "C01": ["the byte-level theorem carries `result depth <= 10000` (needed: the reference parser has a nesting limit, Marshal has none; counterexample in C01bytes.lean)"],
     "C03": [],
-    "C04": ["v5: the Go heap of *lazyNode is modelled by a store (JP/Heap/Model.lean) and PROVED to be refined by the value model (JP.C04heap.applyHeap_eq, tree_preserved, marshal_terminates: no sharing, no cycle, Marshal returns); residual: the store model is a hand transcription (one cell = a lazyNode together with the partialDoc/partialArray it owns; `equal` = verdict on the abstraction + in-place deepParse on success), tied to /repo by the per-case comparison applyHeap = applyBytes in the apply streams; the legacy root package is still modelled by values only"],
+    "C04": ["v5: the Go heap of *lazyNode is modelled by a store (JP/Heap/Model.lean) and PROVED to be refined by the value model (JP.C04heap.applyHeap_eq, tree_preserved, marshal_terminates: no sharing, no cycle, Marshal returns); residual: the store model is a hand transcription (one cell = a lazyNode together with the partialDoc/partialArray it owns; `equal` = verdict on the abstraction + in-place deepParse on success), tied to /repo by the per-case comparison applyHeap = applyBytes in the apply streams; the legacy root package has its own store model (JP/Heap/LegacyModel.lean: the v5 cells read the legacy way, partialDoc = map without key list, nil raw message = its own cell) PROVED to be refined by the legacy value model with no hypothesis (JP.C04heapLegacy.applyHeapL_eq, tree_preserved_legacy, marshal_terminates_legacy); residual there too: hand transcription, tied to /repo by the per-case comparison applyHeapL = Legacy.applyBytes on every LAPPLY line"],
     "C09": ["'no exported function writes to the byte slices or Patch it is given' is observed and supported by regenerated facts, not a theorem"],
     "C10": ["data-race freedom under the Go memory model: executed schedules only (race detector)"],
     "C15": ["tests_transparent holds outside the known-finding trigger class and for duplicate-free names (C15.counterexample_dup shows duplicates break it: outside every property's domain)"],
